@@ -19,6 +19,11 @@ def run(tier, seed):
     g1 = tlc_gen("MC_Buffer.tla", "Gen_Buffer.cfg" if quick else "Gen_Buffer_t.cfg", "TRANSITION", f"{w}/buffer.ndjson", timeout=1500)
     r1 = vh(["c17-replay-buffer", "--in", f"{w}/buffer.ndjson"], name="c17a")
     v.add_report(r1, "buffer transitions")
+    # the Unreal 2 string decoder in its own universe (length bytes 0..3 / 128..130, escapes, control codes, stray 01)
+    mc.append(tlc_mc("MC_Buffer.tla", "MC_Buffer_u2.cfg", workers=4, name="c17_u2mc"))
+    g1b = tlc_gen("MC_Buffer.tla", "Gen_Buffer_u2.cfg", "TRANSITION", f"{w}/buffer_u2.ndjson", name="c17_u2gen")
+    r1b = vh(["c17-replay-buffer", "--in", f"{w}/buffer_u2.ndjson"], name="c17a2")
+    v.add_report(r1b, "unreal 2 string transitions")
     g2 = tlc_gen("MC_VarInt.tla", "Gen_VarInt.cfg", "CASE", f"{w}/varint.ndjson")
     r2 = vh(["c17-replay-varint", "--in", f"{w}/varint.ndjson"], name="c17b")
     v.add_report(r2, "varint cases")
@@ -42,7 +47,7 @@ def run(tier, seed):
     v.add_report(r5, "random reader traces")
     validated, tstats = validate_trace(v, "Trace_Buffer.tla", "Trace_Buffer.cfg", tf)
     nviol, nsig = v.finish()
-    reps = [r for r in [r1, r2, r4, r5] + sweeps if "crashed" not in r]
+    reps = [r for r in [r1, r1b, r2, r4, r5] + sweeps if "crashed" not in r]
     cov = {
         "states": sum(m["states"] for m in mc) + tstats["states"],
         "transitions": sum(m["transitions"] for m in mc) + tstats["transitions"],
